@@ -79,6 +79,12 @@ def check_fmt(ctx):
       got, pat = emulate_parse(plan, text)
       key = f"ttconv.time_code:SmpteTimeCode.__str__|branch{b}|{text}"
       ok = got is not None and [int(v) for v in got.values()] == [vals["self._hours"], vals["self._minutes"], vals["self._seconds"], vals["self._frames"]]
+      # the drop-frame form must be recognised as drop-frame (and vice versa): parse() derives the frame rate from the pattern that matched
+      par = getattr(rets[b], "_parent", None)
+      is_df_branch = isinstance(par, ast.If) and "is_drop_frame" in unparse(par.test) and rets[b] in par.body
+      if ok:
+        df_groups = all(g.startswith("df_") for g in got)
+        ok = df_groups == is_df_branch
       ctx.check(ok, "FMT", key, ctx.where(f_str.module, rets[b]),
                 f"printed `{text}` parsed back by {pat!r} to {got}",
                 f"SmpteTimeCode prints `{text}` but SmpteTimeCode.parse recovers {got} (pattern {pat!r}): parsing a printed time code does not return it")
